@@ -25,6 +25,7 @@ TIMES = [
     "2020-07-01T12:00:00", "2020-09-30T12:00:00", "2020-10-01T12:00:00", "2020-12-27T12:00:00",
     "2020-12-28T12:00:00", "2020-12-31T12:00:00", "2020-12-31T12:00:01", "2021-01-03T12:00:00",
     "2021-01-04T12:00:00", "2021-12-31T12:00:00", "2018-12-31T12:00:00", "1969-12-31T12:00:00",
+    "2020-01-02T00:00:00.400", "2020-12-31T12:00:00.250", "2020-02-28T23:59:59.900",   # fractions of a second after / before an absolute bound
 ]
 XV = (4.0, 5.0, 7.0, 10.0, 12.0, 13.0, 14.0, 15.0, 16.0, 17.0, 18.0, 19.0, 20.0, 22.0, 25.0, 26.0, alpha.NAN)
 ZV = (0.0, 5.0, 10.0, 15.0, 20.0, 25.0, alpha.NAN)
